@@ -496,9 +496,10 @@ def case_idmrg(ctx, i):
     terr = float(np.max(stats['max_trunc_err'])) if n_it else 0.0
     conv = n_it >= 2 and abs(stats['Delta_E'][-1]) < 1e-9 and not mixer_on_at_end
     ctx.obs.setdefault('idmrg_gap', []).append([abs(E - e_mpo), terr, bool(conv), bool(short)])
-    if e0 is not None and e_mpo < e0 - 1e-7 and nt <= 1e-8:
-        # (only a canonical infinite MPS makes H_MPO.expectation_value a variational energy density; a state left non-canonical by a
-        #  mixer that is still on is reported above)
+    if e0 is not None and e_mpo < e0 - 1e-7 and nt <= 1e-8 and not mixer_on_at_end:
+        # (only a canonical infinite MPS makes H_MPO.expectation_value a variational energy density; a run that ends with the mixer
+        #  still on skips the final canonicalisation -- the recorded finding -- and its singular values need not be the fixed point
+        #  of the transfer matrix even where norm_test is small)
         ctx.violation('iDMRG:energy-density-below-exact', 'e = %r exact %r' % (e_mpo, e0), case)
     if conv and not mixer_on_at_end:
         ctx.count('idmrg.converged')
